@@ -14,13 +14,14 @@ def load_engine(ll_path):
     interp.compile_module(eng)
     return eng
 
-def fresh_state(eng, files=None, fault=False, unwritable=(), tainted=False, forced_choices=None, cfg=None):
+def fresh_state(eng, files=None, fault=False, unwritable=(), tainted=False, forced_choices=None, cfg=None, assume=None):
     st = eng.init_state.clone()
     if files:
         for k, v in files.items(): st.files[k] = list(v)
     if fault:
         st.fault = {'open': z3.Bool('F_open'), 'off': z3.BitVec('F_off', 32), 'close': z3.Bool('F_close')}
     st.unwritable = tuple(unwritable); st.input_tainted_alloc = tainted; st.forced_choices = forced_choices; st.cfg = dict(cfg or {})
+    if assume: st.pc = list(assume)
     return st
 
 def run_fn(eng, fn, args=(), files=None, fault=False, maxsteps=50_000_000, wall=1e9, maxpaths=100000, on_path=None, **kw):
